@@ -44,7 +44,8 @@ def run():
     chk.cov["rule"] = ("each process run = 5-8 runtime incarnations with random worker count (1-4, occasionally 8 or 16), scheduling "
                        "policy (8), with/without an entry function (whose result stop() must return), a random "
                        "task forest (4-27 tasks: children, yields, blocking on children, priorities, stack "
-                       "sizes) submitted by the entry function, the driver thread, a second external thread, "
+                       "sizes; relays of 100-2000 tiny tasks each creating its successor before it finishes; incarnations in "
+                       "which root relays are submitted one at a time, each followed by its own wait()) submitted by the entry function, the driver thread, a second external thread, "
                        "while suspended, and after resume; wait / suspend / resume / finalize / stop in random "
                        "legal order; every history validated by TLC against LifeAbs; distinct = distinct "
                        "incarnation configurations")
